@@ -97,7 +97,7 @@ fn main() {
                 Ok(mut st) => {
                     st.run_ops(&ops);
                     println!("{}", trace::outs_short(&st.trace.outs));
-                    println!("idle={} can_block={}", st.k.is_idle(), st.k.can_block_update_idle_waiting(1));
+                    println!("idle={} can_block={} reload_pending={}", st.k.is_idle(), st.k.can_block_update_idle_waiting(1), st.k.verif_live_reload_requested());
                     if std::env::var_os("KSIM_DUMP").is_some() {
                         println!("dynamic_macros={:?}", st.k.dynamic_macros);
                     }
